@@ -298,3 +298,35 @@ package phttp
 //@ requires g.Gun != nil
 //@ at call g.Gun.WarmUp assert arg(opts) == opts0
 //@ ensures result0 == result_of(g.Gun.WarmUp, 0) && result1 == result_of(g.Gun.WarmUp, 1)
+
+// ---------------------------------------------------------------- connect gun (connect.go)
+
+// Without a resolved address the connect gun goes to the configured target itself.
+//@ func NewConnectGun
+//@ props C09
+//@ at call NewBaseGun assert [resolved-target-defaults-to-the-target] arg(cfg).TargetResolved == ite(cfg0.TargetResolved == "", cfg0.Target, cfg0.TargetResolved) && arg(cfg).Target == cfg0.Target && arg(cfg).SSL == cfg0.SSL && arg(cfg).Client == cfg0.Client && arg(answLog) == answLog0
+
+//@ func DefaultConnectGunConfig
+//@ props C17 C09
+//@ ensures [documented-defaults] !result.SSL && result.Client == result_of(DefaultClientConfig, 0) && !result.AutoTag.Enabled && result.AutoTag.URIElements == 2 && result.AutoTag.NoTagOnly && !result.AnswLog.Enabled && result.AnswLog.Path == "answ.log" && result.AnswLog.Filter == "error" && !result.HTTPTrace.DumpEnabled && !result.HTTPTrace.TraceEnabled
+
+//@ func newConnectClient
+//@ props C09
+//@ may_panic true
+//@ at call newConnectDialFunc assert [tunnel-to-the-target] arg(target) == target0 && arg(connectSSL) == conf.ConnectSSL && arg(dialer) == result_of(NewDialer, 0)
+//@ at call NewDialer assert arg(conf) == conf0.Dialer
+//@ at call NewTransport assert [transport-options-and-target] arg(conf) == conf0.Transport && arg(target) == target0
+//@ at call NewRedirectingClient assert [redirect-option] arg(tr) == result_of(NewTransport, 0) && arg(redirect) == conf.Redirect
+
+// The tunnel: a TCP connection to the target (the proxy), a CONNECT for the address the transport asked for, and only a
+// 200 answer makes it a tunnel; every failure closes the connection and is returned.
+//@ func newConnectDialFunc#lit0
+//@ props C09 C19
+//@ nilsafe
+//@ requires dialer != nil
+//@ may_panic network != "tcp"
+//@ at call dialer.DialContext assert [to-the-proxy-target] arg(ctx) == ctx0 && arg(net) == "tcp" && arg(addr) == target
+//@ ensures [dial-failure-is-returned] imp(result_of(dialer.DialContext, 1) != nil, err != nil && conn == nil)
+//@ ensures [a-connection-or-an-error] imp(err != nil, conn == nil)
+//@ at call req.Write assert [a-connect-request-for-the-address-the-transport-asked-for] req.Method == "CONNECT" && req.Host == address
+//@ at call http.ReadResponse assert [answer-to-that-connect-request] arg(req) == req
